@@ -21,6 +21,9 @@ request (2-D):
             | gpyr level downscale nW w0 … w_r   (half weights of the symmetric blur kernel)
             | warpc <provider> h w a b tx c d ty mode   (landmarks moved by the closed form of that supplier)
             | constrainlm
+            | constrainmask k (b)^k         (MaskedImage.constrain_mask_to_landmarks / BooleanImage.constrain_to_landmarks on the
+                                             landmark points of the request; b = result of the containment test at the
+                                             k-th pixel of the PIX list: contract parameter, computed by the harness)
             | chain n <stepop>^n            (stepop: rescale | resize | crop | croppts | cropprop | zoom | rotate | about
                                              | mirror | warp, each applied to the result of the previous one)
   provider := homogeneous | alignment | rotation | nonUniformScale | uniformScale | translation
@@ -39,9 +42,10 @@ request (3-D):  c3 <cls> n0 n1 n2 nch <content3>^nch [<mask>] <o0|o1> <op3> LM n
 import MenpoModel.Core.Codec
 import MenpoModel.Core.C01Warp
 import MenpoModel.Core.C01Ext
+import MenpoModel.Core.C01Src
 
 namespace MenpoModel.Drive.C01
-open MenpoModel.Codec MenpoModel.C01
+open MenpoModel.Codec MenpoModel.C01 MenpoModel.C01.Src
 
 /-! ### image contents -/
 
@@ -149,6 +153,7 @@ inductive Job2
   | gpyr (level : Nat) (ds : Rat) (wts : List Rat)
   | warpc (pv : PinvProvider) (p : Except Err Plan2)
   | constrain
+  | cmask (bits : List Bool)
   | chain (ops : List OpF)
 
 def pProvider : P PinvProvider := do
@@ -223,6 +228,7 @@ def pOp2 (h w : Nat) : P Job2 := do
     let pv ← pProvider; let th ← pNat; let tw ← pNat; let T ← pAff2; let m ← pMode
     pure (.warpc pv (warpPlan2 th tw T m))
   | "constrainlm" => pure .constrain
+  | "constrainmask" => do let bits ← pList pBool; pure (.cmask bits)
   | "chain" => do let ops ← pList pStep; pure (.chain ops)
   | "warpmask" => do
     let th ← pNat; let tw ← pNat; let c ← pContent2 th tw; let T ← pAff2; let m ← pMode
@@ -281,6 +287,20 @@ def answer2 (r : Req2) : String :=
   | .constrain =>
     let lms := r.lms.map (constrainLandmark r.h r.w)
     s!"ok {r.h} {r.w} {fA2 Aff2.one} {fmtRats [(r.h : Rat), (r.w : Rat)]} {fV2s lms} "
+  | .cmask bits =>
+    -- the containment test is a table over the queried pixels (contract parameter)
+    let tbl := r.pix.zip bits
+    let inside : PipFn → List V2 → V2 → Bool := fun _ _ p =>
+      ((tbl.find? fun e => decide (((e.1.1 : Int) : Rat) = p.x ∧ ((e.1.2 : Int) : Rat) = p.y)).map (·.2)).getD false
+    let zero : Int → Int → Rat := fun _ _ => 0
+    let mobj : Obj := ⟨.boolean, ⟨r.h, r.w, [if r.cls = .bool then r.chans.headD zero else r.mask], true⟩, none, r.lms, none⟩
+    let res := constrainToPointcloudObj inside .pwa mobj r.lms
+    let newMask := res.pix.ch.headD zero
+    let pixs := r.pix.flatMap fun (i, j) =>
+      let vals := if r.cls = .bool then [newMask i j] else r.chans.map fun c => c i j
+      let mk := if r.cls = .masked then [newMask i j] else []
+      vals ++ mk ++ [((i : Int) : Rat), ((j : Int) : Rat)]
+    s!"ok {r.h} {r.w} {fA2 Aff2.one} {fmtRats [(r.h : Rat), (r.w : Rat)]} {fV2s r.lms} {fmtRats pixs}"
   | .chain ops =>
     (match r.chans with
      | [] => "bad-op"
